@@ -10,7 +10,12 @@
   CometProofs/Properties/C17.lean are about).  An observation that no state of `S`
   (closed under unobserved steps) can explain is reported:
      SPECFAIL … the implementation's outcome contradicts the property
-     DIFF …     only the class of an error differs (still a failure, as the property demands)
+
+  Outcomes are observed as WHAT was called and WHETHER it failed (`open-err`, `close-err`,
+  `op-err`): C17 says that certain calls fail, never which error they report, so a failed
+  Open is explained by every model state in which that Open failed — for whatever reason
+  (locked, or the injected fault) — and the class the harness attached to the error (guessed
+  from its wording) only appears as a flag (`Proto.classFlag`).
 
   Exploration is reduced, exactly: a step that touches only state no other actor reads or
   writes, stays enabled once enabled, and cannot be told apart by any observation the
@@ -26,8 +31,10 @@
      inv <t> open <inj> [<point>]        inj = none|mkdir|create|writepid|readdir1|readdir2 ; point = yield point it will park at
      inv <t> close <ht>.<hi> [<point>]
      inv <t> use <kind> <ht>.<hi> <w>    kind = add|addid|remove|train|search|flush ; w=1: body may write segments
-     ret <t> => <res>                    opened|locked|e-mkdir|e-create|e-writepid|e-readdir1|e-readdir2|
-                                         closed-ok|already-closed|op-ok|op-closed|<anything else>
+     ret <t> => <res>                    opened | open-err:<class> | closed-ok | close-err:<class> |
+                                         op-ok | op-err:<class> (a call whose body cannot fail on an open
+                                         handle failed: it was refused) | op-err-any:<class> (a call whose
+                                         body may fail failed: refused, or got through and failed) | <anything else>
      at <t> <point>                      thread t is parked at verifPoint <point> (does not move until `go`)
      go <t>
      list => <absent|0|1> <names|->      directory listing: LOCK present?, the other names (comma separated)
@@ -182,6 +189,27 @@ def parseRes : String → Option Res
   | "op-ok" => some .opOk | "op-closed" => some .errClosed
   | _ => none
 
+/-- What the harness observed of a returned call: its kind and whether it failed.  The class of
+    the error (text after ':') is informational — Proto.sameOutcome. -/
+inductive Obs
+  | exact (r : Res)     -- opened / closed-ok / op-ok
+  | openErr             -- Open returned an error
+  | closeErr            -- Close returned an error
+  | opErr               -- an operation whose body cannot fail on an open handle returned an error
+  | opAnyErr            -- an operation whose body can fail on an open handle returned an error
+deriving BEq
+
+/-- (observation, error class) -/
+def parseObs (r : String) : Option (Obs × String) :=
+  match r.splitOn ":" with
+  | ["opened"] => some (.exact .opened, "") | ["closed-ok"] => some (.exact .closedOk, "")
+  | ["op-ok"] => some (.exact .opOk, "")
+  | "open-err" :: c => some (.openErr, c.headD "other")
+  | "close-err" :: c => some (.closeErr, c.headD "other")
+  | "op-err" :: c => some (.opErr, c.headD "other")
+  | "op-err-any" :: c => some (.opAnyErr, c.headD "other")
+  | _ => none
+
 def showRes : Res → String
   | .opened => "opened" | .errLocked => "locked" | .errMkdir => "e-mkdir" | .errCreate => "e-create"
   | .errWritePid => "e-writepid" | .errReadDir1 => "e-readdir1" | .errReadDir2 => "e-readdir2"
@@ -190,6 +218,18 @@ def showRes : Res → String
 def isOpenErr : Res → Bool
   | .errLocked | .errMkdir | .errCreate | .errWritePid | .errReadDir1 | .errReadDir2 => true
   | _ => false
+
+/-- the model results an observation is explained by -/
+def Obs.explainedBy : Obs → Res → Bool
+  | .exact r, r' => r == r'
+  | .openErr, r => isOpenErr r
+  | .closeErr, r => r == .errAlreadyClosed
+  | .opErr, r => r == .errClosed
+  | .opAnyErr, r => r == .errClosed || r == .opOk
+
+def Obs.name : Obs → String
+  | .exact r => showRes r | .openErr => "open-err" | .closeErr => "close-err"
+  | .opErr => "op-err" | .opAnyErr => "op-err-any"
 
 def dedupRes (rs : List Res) : List Res := rs.foldl (fun acc r => if acc.contains r then acc else acc ++ [r]) []
 
@@ -260,39 +300,45 @@ def op (m : Mon) (toks : List String) : Mon × String :=
         sts.map fun ms => { ms with threads := ms.threads.modify t fun th => { th with results := [] } }
       let m' := { m with inflight := m.inflight.erase t }
       let allowedS := " ".intercalate (allowed.map showRes)
-      match parseRes r with
+      match parseObs r with
       | none => fail m' s!"SPECFAIL unexpected-outcome impl={r} model-allows=[{allowedS}]"
-      | some res =>
-        let good := done.filter fun ms => (ms.threads.getD t {}).results.head? == some res
+      | some (obs, cls) =>
+        let good := done.filter fun ms => match (ms.threads.getD t {}).results.head? with
+          | some res => obs.explainedBy res
+          | none => false
         if !good.isEmpty then
+          -- the model results that explain the observation (one, unless the failure of an Open
+          -- has several possible reasons / a failed Remove may or may not have been refused)
+          let rs := dedupRes (good.toList.filterMap fun ms => (ms.threads.getD t {}).results.head?)
+          let only (p : Res → Bool) : Bool := rs.all p
           let flags :=
-            (if res == .errLocked then " locked=1" else "") ++
-            (if isOpenErr res && res != .errLocked then " injfail=1" else "") ++
-            (if res == .opened then " opened=1" else "") ++
-            (if res == .opened && m.closedSeen then " reopen=1" else "") ++
-            (if res == .closedOk then " closedok=1" else "") ++
-            (if res == .errClosed then " uac=1" else "") ++
-            (if res == .errAlreadyClosed then " dblclose=1" else "") ++
-            (if res == .opOk then " opok=1" else "") ++
+            (if only (· == .errLocked) then " locked=1" else "") ++
+            (if only (fun r => isOpenErr r && r != .errLocked) then " injfail=1" else "") ++
+            (if obs == .exact .opened then " opened=1" else "") ++
+            (if obs == .exact .opened && m.closedSeen then " reopen=1" else "") ++
+            (if obs == .exact .closedOk then " closedok=1" else "") ++
+            (if only (· == .errClosed) then " uac=1" else "") ++
+            (if only (· == .errAlreadyClosed) then " dblclose=1" else "") ++
+            (if only (· == .opOk) then " opok=1" else "") ++
+            (if cls.isEmpty then "" else s!" {classFlag cls}") ++
+            (if rs.length > 1 then " reasons=1" else "") ++
             (if allowed.length > 1 then " amb=1" else "") ++
             (if m'.inflight.isEmpty then "" else " conc=1") ++
             (if m.frozen.isEmpty then "" else " parked=1") ++
             (if t + 2 == m.n then " xproc=1" else "")
-          ({ m' with states := finish good, closedSeen := m.closedSeen || res == .closedOk },
-           s!"ok r-{showRes res}=1 states={good.size}{flags}")
+          let label := match rs with | [r1] => showRes r1 | _ => obs.name
+          ({ m' with states := finish good, closedSeen := m.closedSeen || obs == .exact .closedOk },
+           s!"ok r-{label}=1 states={good.size}{flags}")
         else if allowed.isEmpty then
           fail m' s!"SPECFAIL call-cannot-have-returned impl={r} (in the model this call is still blocked or unfinished)"
-        else if isOpenErr res && allowed.all isOpenErr then
-          -- still a failure, as the property demands; only the error class differs
-          ({ m' with states := finish done }, s!"DIFF error-class model=[{allowedS}] impl={r}")
         else
-          let pred :=
-            if res == .opened then "lock_mutex(open-succeeded-on-owned-or-failing-directory)"
-            else if isOpenErr res then "close_releases(open-of-free-directory-failed)"
-            else if res == .closedOk then "close_idempotent_effect(second-close-succeeded)"
-            else if res == .errAlreadyClosed then "close(spurious-already-closed)"
-            else if res == .opOk then "use_after_close_fails(op-succeeded-on-closed-handle)"
-            else "op-failed-closed-on-open-handle"
+          let pred := match obs with
+            | .exact .opened => "lock_mutex(open-succeeded-on-owned-or-failing-directory)"
+            | .openErr => "close_releases(open-of-free-directory-failed)"
+            | .exact .closedOk => "close_idempotent_effect(second-close-succeeded)"
+            | .closeErr => "close(failed-on-an-open-handle)"
+            | .exact .opOk => "use_after_close_fails(op-succeeded-on-closed-handle)"
+            | _ => "op-failed-on-open-handle"
           fail m' s!"SPECFAIL {pred} model-allows=[{allowedS}] impl={r}"
     | _, _ => (m, "BADOP ret")
   | ["at", t, point] =>
